@@ -206,7 +206,7 @@ CONSUMERS = [("fold", 0), ("rfold", 0), ("last", 0), ("count", 0), ("collect", 0
 
 
 def op_line(op, k):
-    if op in ("nth", "nth_back"):
+    if op in ("nth", "nth_back", "find", "rfind", "take_count", "rev_take_count", "take_last"):
         return f"op {op} {'max' if k >= stimuli.BIG else k}"
     return f"op {op}"
 
@@ -226,6 +226,26 @@ def session(lines, key, new, path, consumer, observe=True):
     if consumer:
         i += 1
         lines.append(f"s {key}.{i} end {consumer[0]} {consumer[1]}")
+
+
+def multi_session(lines, key, news, path, calls, consumers):
+    """several iterators alive at once (one per slot), operated alternately, with pure calls in between:
+    news[slot] = constructor, path = [(slot, op, k)], calls = script lines of pure calls (they keep their own sig)"""
+    i = 0
+    for sl, new in enumerate(news):
+        lines.append(f"s {key}.{i} new {new} @{sl}")
+        i += 1
+    for j, (sl, op, k) in enumerate(path):
+        lines.append(f"s {key}.{i} {op_line(op, k)} @{sl}")
+        i += 1
+        if calls and j % 2 == 0:
+            lines.append(calls[(j // 2 + len(path)) % len(calls)])
+    for sl in range(len(news)):
+        lines.append(f"s {key}.{i} op len @{sl}")
+        i += 1
+    for sl, cons in enumerate(consumers[:len(news)]):
+        lines.append(f"s {key}.{i} end {cons[0]} {cons[1]} @{sl}")
+        i += 1
 
 
 SIGFAM = {"into": "into", "into_t": "into", "as_str": "str", "display": "str", "debug": "str", "into_str": "str",
@@ -261,6 +281,22 @@ def make_script(vs, r, probes_model, rng, level="std", str_cap=48, pairs_cap=36,
     reals = sorted(model)
     n = len(reals)
     L = []
+    # cold start: the FIRST calls an enum's items ever see in the process are a seeded choice, not always the same ones
+    # (a lazily initialised table or a memo of the last lookup starts from its initial state exactly once)
+    ca, cb = rng.choice(reals), rng.choice(reals)
+    cold = rng.choice(["range", "range", "next", "next_back", "as_str", "from_str", "try_from", "iter", "names"])
+    if cold == "range":
+        session(L, f"range:{model[ca]}:{model[cb]}:cold", f"range {bits(ca)} {bits(cb)}", [("next", 0)], ("collect", 0))
+    elif cold in ("iter", "names"):
+        cop = rng.choice(["next_back", "nth", "nth_back"])
+        session(L, f"{cold}:cold:{cop}", cold, [(cop, 1)], ("collect", 0))
+    elif cold == "from_str":
+        cp = " ".join(str(ord(c)) for c in name_of(vs[reals.index(ca)]))
+        L.append(f"s fs:{h(name_of(vs[reals.index(ca)]))} call from_str {cp}".rstrip())
+    elif cold == "try_from":
+        L.append(f"s tf:{model[ca]} call try_from {bits(ca)}")
+    else:
+        L.append(f"s {SIGFAM[cold]}:{model[ca]} call {cold} {bits(ca)}")
     for m in (probes_model if calls else []):
         try:
             x = p.to_real(m)
@@ -349,7 +385,7 @@ def make_script(vs, r, probes_model, rng, level="std", str_cap=48, pairs_cap=36,
         for src in ("iter", "names"):
             for j in range(6 if level != "full" else 20):
                 path = rand_path(rng.randint(5, 60), n)
-                session(L, f"{src}:r{j}", src, path, cons_for(j))
+                session(L, f"{src}:r{h(json.dumps(path) + str(cons_for(j)))}", src, path, cons_for(j))
         for j in range(12 if level != "full" else 60):
             a, b = rng.choice(reals), rng.choice(reals)
             if j % 4 == 0:
@@ -357,8 +393,9 @@ def make_script(vs, r, probes_model, rng, level="std", str_cap=48, pairs_cap=36,
             if j == 1:
                 b = a
             m = abs(reals.index(b) - reals.index(a)) + 1
-            session(L, f"range:{model[a]}:{model[b]}:r{j}", f"range {bits(a)} {bits(b)}",
-                    rand_path(rng.randint(3, 30), m), cons_for(j) if big and m > 5000 else (("count", 0) if big else CONSUMERS[j % len(CONSUMERS)]))
+            rp = rand_path(rng.randint(3, 30), m)
+            session(L, f"range:{model[a]}:{model[b]}:r{h(json.dumps(rp) + str(j))}", f"range {bits(a)} {bits(b)}",
+                    rp, cons_for(j) if big and m > 5000 else (("count", 0) if big else CONSUMERS[j % len(CONSUMERS)]))
     if n > 6:
         # ranges that touch the ends of the list, whatever the random choices above were
         srt = sorted(reals)
@@ -368,6 +405,56 @@ def make_script(vs, r, probes_model, rng, level="std", str_cap=48, pairs_cap=36,
             cons = [("count", 0), ("last", 0), ("rev_collect", 0), ("collect", 0)][j % 4] if m <= 5000 else ("count", 0)
             session(L, f"range:{model[a]}:{model[b]}:e{j}", f"range {bits(a)} {bits(b)}",
                     [("next", 0), ("next_back", 0), ("nth", 1)][: j % 4], cons)
+    # ---- several iterators alive at once, operated alternately, pure calls in between (iterators are values: no
+    # operation on one may change another; no call may depend on the calls before it) ----
+    call_lines = [x for x in L if " call " in x and " call zip" not in x]
+    inter = rng.sample(call_lines, min(16, len(call_lines))) if call_lines else []
+    full_new = f"range {bits(reals[0])} {bits(reals[-1])}"
+    combos = [("iter", "iter"), ("iter", "names"), ("names", "names"), (full_new, "iter"), (full_new, full_new), ("names", full_new)]
+    if n <= 4:
+        mp = stimuli.multi_paths(n, 2)
+        if level != "full" or n not in (2, 3):
+            mp = rng.sample(mp, min(6 if level == "std" else 3, len(mp)))
+        for j, path in enumerate(mp):
+            news = combos[j % len(combos)]
+            cons = [CONSUMERS[(j + t) % len(CONSUMERS)] for t in range(2)]
+            multi_session(L, f"multi2:{h(json.dumps(path) + str(news) + str(cons))}", news, path, inter, cons)
+        if level == "full" and n == 2:
+            for j, path in enumerate(stimuli.multi_paths(2, 3)):
+                news = (combos[j % len(combos)] + combos[(j // 6 + 1) % len(combos)])[:3]
+                cons = [CONSUMERS[(j + t) % len(CONSUMERS)] for t in range(3)]
+                multi_session(L, f"multi3:{h(json.dumps(path) + str(news) + str(cons))}", news, path, inter, cons)
+    else:
+        for j in range(3 if level != "full" else 12):
+            ops = []
+            for _ in range(rng.randint(8, 40)):
+                t = rng.random()
+                op = ("next", 0) if t < 0.3 else ("next_back", 0) if t < 0.6 else \
+                    (rng.choice(["nth", "nth_back", "find", "rfind", "take_count", "rev_take_count", "take_last"]), rng.choice([0, 1, 2, max(1, n // 4), n, stimuli.BIG]))
+                ops.append((rng.randrange(3), op[0], op[1]))
+            news = (combos[j % len(combos)] + combos[(j + 2) % len(combos)])[:3]
+            big_cons = [("count", 0), ("last", 0), ("count", 0)]
+            cons = big_cons if n > 64 else [CONSUMERS[(j + t) % len(CONSUMERS)] for t in range(3)]
+            # (the key is content-based: members of a group draw different random histories)
+            multi_session(L, f"multi3:{h(json.dumps(ops) + str(news) + str(cons))}", news, ops, inter, cons)
+    # ---- history independence of the pure items: a seeded sample of the calls above, again, in random order
+    # (after the iterator sessions), and from_str on strings of equal length one after the other (the runner
+    # passes every string through ONE reused buffer: same address, same length, other bytes) ----
+    if call_lines:
+        again = [rng.choice(call_lines) for _ in range(min(40, 2 * len(call_lines)))]
+        L += again
+    if calls:
+        nm = [name_of(v) for v in vs]
+        for s0 in rng.sample(nm, min(8, len(nm))):
+            if not s0:
+                continue
+            same_len = [t for t in nm if len(t.encode()) == len(s0.encode()) and t != s0]
+            twin = s0[:-1] + ("x" if s0[-1] != "x" else "y")
+            seq = [s0, twin, s0, "\0" * len(s0.encode())] + ([same_len[0], s0] if same_len else []) + [twin]
+            for q in seq:
+                cp = " ".join(str(ord(c)) for c in q)
+                for f in ("from_str", "from_str_t"):
+                    L.append(f"s fs:{h(q)} call {f} {cp}")
     if n <= 64:
         # the names iterator has ordered items (&str): min / max are by name, not by position
         for cons in NAME_CONSUMERS:
@@ -975,7 +1062,10 @@ def make_script_large(vs, sub, r, probes_model, rng):
             for f in ("from_str", "from_str_t"):
                 L.append(f"s fs:{h(t)} call {f} {cp}".rstrip())
     L += ["s min call min", "s max call max"] + (["s zip call zip"] if len(vs) <= 5000 else [])
+    call_lines = [x for x in L if " call " in x and " call zip" not in x]
     L += make_script(vs, r, [], rng, level="std", calls=False)
+    # history independence: a seeded sample of the pure calls again, in random order, after the iterator sessions
+    L += [rng.choice(call_lines) for _ in range(60)]
     return L
 
 
